@@ -236,6 +236,60 @@ func (w *concWorld) Gen(seed uint64, tier string) *Plan {
 		s.ModelApply(op)
 		p.Ops = append(p.Ops, op)
 		id++
+	} else if r.P(1, 50) {
+		// peak and shrink: well over a thousand elements, then all but a few removed in one step, so the
+		// readers meet whatever a container keeps from its larger past (spare capacity, tombstones, ...)
+		p.Cfg.Dom = 4096
+		s = makeSubject(p.Cfg, false)
+		op := Op{ID: id, N: "Fill", A: []int{r.Range(1100, 3000), r.Intn(1000), 7}}
+		s.ModelApply(op)
+		p.Ops = append(p.Ops, op)
+		id++
+		op = Op{ID: id, N: "Shrink", A: []int{r.Range(2, max(3, s.ModelSize()/r.Range(8, 40)))}}
+		s.ModelApply(op)
+		p.Ops = append(p.Ops, op)
+		id++
+	} else if r.P(1, 300) {
+		// a deep tree: thousands of keys inserted in ascending order (a B-tree of order 3 is then 13 levels
+		// deep), and every reader runs the whole read catalogue in the same order: whatever a read-only
+		// operation prepares or caches on first meeting such a depth - in the container or in the package -
+		// is met by all readers at once, before any sequential reference call has warmed it
+		p.Cfg.Kind = r.PickS("btree", "btree", "btree", "redblacktree", "avltree", "treemap", "treeset", "linkedhashmap", "hashmap")
+		p.Cfg.Elem, p.Cfg.Cmp, p.Cfg.VCmp, p.Cfg.Ctor, p.Cfg.Order, p.Cfg.Cap, p.Cfg.VDom = "int", "nat", "", "", 0, 0, 0
+		p.Cfg.Dom = 8300
+		p.Cfg.Strat, p.Cfg.SwitchP = "random", 5
+		if p.Cfg.Kind == "btree" {
+			p.Cfg.Order = []int{3, 3, 4}[r.Intn(3)]
+		}
+		s = makeSubject(p.Cfg, false)
+		op := Op{ID: id, N: "Fill", A: []int{r.Range(8192, 8280), 0, 1}}
+		s.ModelApply(op)
+		p.Ops = append(p.Ops, op, Op{ID: id + 1, N: "ReadPhase", A: []int{0}})
+		id += 2
+		var names []string
+		seen := map[string]bool{}
+		for k := 0; k < 400; k++ {
+			if n := s.GenRead(r, 0).N; !seen[n] {
+				seen[n] = true
+				names = append(names, n)
+			}
+		}
+		p.Readers, p.Clients = p.Readers[:2], p.Clients[:3]
+		for ri := range p.Readers {
+			for _, n := range names {
+				op := s.GenRead(r, id)
+				for k := 0; k < 400 && op.N != n; k++ {
+					op = s.GenRead(r, id)
+				}
+				if op.N != n {
+					continue
+				}
+				op.C = ri + 1
+				id++
+				p.Readers[ri] = append(p.Readers[ri], op)
+			}
+		}
+		return p
 	}
 	for ph := 0; ph < phases; ph++ {
 		for n := []int{0, 2, 5, 10, 20, 40}[r.Intn(6)]; n > 0; n-- {
